@@ -571,7 +571,7 @@ func init() {
 						if sv, found, ok := fi.searchTest(gs[0]); ok && !found {
 							if d := fi.singleDef(sv); d != nil {
 								if call, isCall := ast.Unparen(d.rhs).(*ast.CallExpr); isCall {
-									if S := fi.C.searchRet[call]; S != nil {
+									if S := firstRet(fi.C.searchRet[call], fi.C.successRet[call]); S != nil {
 										for _, g := range fi.C.linked[call].GuardsWithin(S, fi.C.linked[call].Decl) {
 											if !g.Neg && fi.isCall(g.Expr, fnIdentical) == member {
 												okPush = true
@@ -1138,4 +1138,11 @@ func sameCallClause(fi *FuncInfo, e ast.Expr, u, item *types.Var, sf *types.Var)
 		return false
 	}
 	return same
+}
+
+func firstRet(a, b *ast.ReturnStmt) *ast.ReturnStmt {
+	if a != nil {
+		return a
+	}
+	return b
 }
